@@ -67,19 +67,19 @@ func fail(format string, args ...any) {
 
 // Obligation is one proof goal: Goal must be valid under lines[0:Pos].
 type Obligation struct {
-	Name   string
-	Kind   string
-	Fn     string
-	Props  []string
-	Pos    int
-	Goal   Term
-	Src    string
-	Where  string
-	Cover  bool // vacuity guard: the goal must be satisfiable
-	Cases  []Term // optional case split (conditions of the control-flow edges merged just before): tried when the whole goal is undecided
-	Model  []ModelVar
+	Name        string
+	Kind        string
+	Fn          string
+	Props       []string
+	Pos         int
+	Goal        Term
+	Src         string
+	Where       string
+	Cover       bool   // vacuity guard: the goal must be satisfiable
+	Cases       []Term // optional case split (conditions of the control-flow edges merged just before): tried when the whole goal is undecided
+	Model       []ModelVar
 	ClauseProps []string
-	Group  string // proof group of the clause (Clause.Group)
+	Group       string // proof group of the clause (Clause.Group)
 }
 
 type ModelVar struct {
@@ -95,32 +95,32 @@ type LoopInfo struct {
 }
 
 type Frame struct {
-	fn       *ssa.Function
-	con      *Contract
-	id       int
-	depth    int
-	vals     map[ssa.Value]Val
-	reach    map[*ssa.BasicBlock]Term
-	out      map[*ssa.BasicBlock]*State
-	edge     map[*ssa.BasicBlock][]Term // per block: condition of edge to Succs[i]
-	inConds  map[*ssa.BasicBlock][]Term // per block: conditions of its reachable incoming forward edges
-	entry    *State
-	params   []Val
-	binds    []Val
-	pc       Term
-	loops    map[*ssa.BasicBlock]*LoopInfo
-	rpo      []*ssa.BasicBlock
-	rpoIdx   map[*ssa.BasicBlock]int
-	parent   *Frame
-	callIdx  map[string]int // per-callee call ordinal (for anchored asserts)
+	fn        *ssa.Function
+	con       *Contract
+	id        int
+	depth     int
+	vals      map[ssa.Value]Val
+	reach     map[*ssa.BasicBlock]Term
+	out       map[*ssa.BasicBlock]*State
+	edge      map[*ssa.BasicBlock][]Term // per block: condition of edge to Succs[i]
+	inConds   map[*ssa.BasicBlock][]Term // per block: conditions of its reachable incoming forward edges
+	entry     *State
+	params    []Val
+	binds     []Val
+	pc        Term
+	loops     map[*ssa.BasicBlock]*LoopInfo
+	rpo       []*ssa.BasicBlock
+	rpoIdx    map[*ssa.BasicBlock]int
+	parent    *Frame
+	callIdx   map[string]int // per-callee call ordinal (for anchored asserts)
 	ghostVals map[string]Val // contract ghost params (top frame)
-	iterInfo map[ssa.Value]*iterState
-	curBlock *ssa.BasicBlock
-	curIdx   int
-	ord      map[ssa.Instruction]int
-	ordName  map[ssa.Instruction]string
-	locals   []localCell
-	escaped  map[*ssa.Alloc]bool
+	iterInfo  map[ssa.Value]*iterState
+	curBlock  *ssa.BasicBlock
+	curIdx    int
+	ord       map[ssa.Instruction]int
+	ordName   map[ssa.Instruction]string
+	locals    []localCell
+	escaped   map[*ssa.Alloc]bool
 }
 
 // anchored checks the "//@ at <kind> <name>#n assert" clauses that name the
@@ -144,6 +144,13 @@ func (e *Enc) anchored(fr *Frame, kind string, ins ssa.Instruction, st *State, r
 			}
 		}
 		if aa.N != 0 && aa.N != fr.ord[ins] {
+			continue
+		}
+		if aa.Bump != "" {
+			// event counter: +1 on the paths that reach this call
+			key, srt, _ := e.ghostKey(aa.Bump)
+			cur := e.get(st, key, srt)
+			st.m[key] = e.B.define("bump."+aa.Bump, srt, ite(reach, "(+ "+cur+" 1)", cur))
 			continue
 		}
 		if !clauseActive(aa.Clause) {
@@ -175,14 +182,14 @@ type iterState struct {
 }
 
 type Enc struct {
-	L     *Loaded
-	CS    *Contracts
-	B     *Builder
-	top   *ssa.Function
-	con   *Contract
-	obls  []*Obligation
-	notes []string
-	inst  int
+	L                 *Loaded
+	CS                *Contracts
+	B                 *Builder
+	top               *ssa.Function
+	con               *Contract
+	obls              []*Obligation
+	notes             []string
+	inst              int
 	exact, abstracted int
 	calleesByContract map[string]bool
 	calleesInlined    map[string]bool
@@ -931,7 +938,7 @@ func (e *Enc) addObl(fr *Frame, kind string, goal Term, src string, pos token.Po
 	e.oblCount[kind]++
 	o := &Obligation{
 		Kind: kind, Fn: fnName, Pos: e.B.pos(), Goal: goal, Src: src, Where: e.where(pos),
-		Name: fmt.Sprintf("%s/%s#%d", fnName, kind, e.oblCount[kind]),
+		Name:        fmt.Sprintf("%s/%s#%d", fnName, kind, e.oblCount[kind]),
 		ClauseProps: clauseProps,
 	}
 	if e.con != nil {
